@@ -1,4 +1,5 @@
 import PynnVerif.Proofs.Diversify
+import PynnVerif.Proofs.GenSearchGraph
 import Mathlib.Data.Nat.Basic  -- `LinearOrder Nat` for the concrete examples at the end
 
 /-!
@@ -206,5 +207,72 @@ the retained position 1 (point 1), the removed position 4 by the retained positi
 example : (List.range 5).map (diversifyCsr 0 lineDist (fun c => decide (0 < c))
       (fun j => [0, 1, 4, 2, 3].getD j 0) (fun j => [0, 1, 1, 2, 10].getD j 0) [0, 1, 2, 3, 4])
     = [true, true, true, false, false] := by decide
+
+/-! ## the translated dense `diversify` (`Gen/SearchGraphKernels.lean`), row level
+
+`GenSG.diversify` is the syntax-directed translation of the source text of `pynndescent_.diversify`
+(`harness/translate_searchgraph.py`, re-run by `check` before every build): `prange` as `range`, the
+typed lists as arrays with `push`, `break` / `flag`, the write-back loop with `-1` / `np.inf`.
+UNINTERPRETED (class `DivParams`): `FLOAT32_EPS`, `np.inf`, `dist(data[a], data[b])` as a function
+of the two point numbers (the loads from `data` are not translated — the model's `dist` is the same
+kind of table), and the outcome of the `c`-th test `tau_rand(rng_state + i) < prune_probability` of
+row `i` as `draw i c` (the generator is private to the row and consulted only at these tests, so
+the counter advances exactly there).  Helper lemmas: `Proofs/GenSearchGraph.lean`
+(`diversify_loop2` = `scanNew`, `diversify_loop1` = `divLoop`).
+
+FULL STATEMENT, NOT PROVED (time): for every rectangular `indices`, `distances` of width `≥ 1`, every
+`DivParams` and enough fuel, `GenSG.diversify fuel indices distances … = some (I', D', I', D')` with
+row `i` of `(I', D')` = `diversifyRow top eps dist (draw i) (row i of (indices, distances))`.
+MISSING for it: the write-back loop `diversify.loop3` (the `(-1, inf)` padding through `wr2`) and the
+outer loop over the rows (that row `i` is read before and independently of the stores into rows
+`< i`).  What IS proved, for every row, every `dist`, every draw stream: the two inner loops, i.e.
+the `new_indices` / `new_distances` the kernel builds for the row. -/
+section KernelTie
+open Pynn.GenSearchGraphProofs Pynn.GenSG
+
+/-- **`diversify` (translated source), row `i`: the lists `new_indices` / `new_distances` it builds
+are the model's** `(diversifyList eps dist (draw i) row).1`, without out-of-bounds access, for every
+row of width `W ≥ 1` (indices and distances of the same width), every `DivParams` (so: every `dist`,
+every draw stream, every `eps`) and fuel `≥ 2W + 2`: the candidate loop as the kernel enters it
+(`new_* = [entry 0]`, `j = 1`, fresh generator) — scan loop with `break` / `flag`, the `-1` sentinel
+`break`, the appends. -/
+theorem kernel_diversify_row_refines_partial [OfNat P 0] [SortFn P] [DivParams P]
+    (indices : Array (Array Int)) (distances : Array (Array P)) (data : Array (Array P))
+    (i : Nat) (hi : i < indices.size) (hd : i < distances.size) (hw : indices[i].size = distances[i].size)
+    (h0 : 0 < indices[i].size) (fuel : Nat) (hf : 2 * indices[i].size + 2 ≤ fuel) :
+    ∃ (c' j' : Int) (ni' : Array Int) (nd' : Array P),
+      diversify.loop1 indices distances data () (i : Int) (indices[i].size : Int) fuel 0
+          #[indices[i][0]] #[distances[i][0]'(hw ▸ h0)] 1
+        = some (.next (c', ni', nd', j')) ∧ ni'.size = nd'.size ∧ ni'.size ≤ indices[i].size ∧
+      ents ni' nd' = (diversifyList DivParams.eps DivParams.dist (drawOf P i)
+        (ents indices[i] distances[i])).1 :=
+  diversify_row_new indices distances data i hi hd hw h0 fuel hf
+
+/-- **`first_retained` / `prob_zero_retains_all` on the translated kernel** (`first_retained_list`,
+`prob_zero_retains_all_list`): the lists the translated kernel builds for a row start with the
+row's first entry whatever the generator says, and when no test of the row prunes
+(`prune_probability = 0`) they are the live prefix of the row. -/
+theorem kernel_diversify_first_and_prob_zero [OfNat P 0] [SortFn P] [DivParams P]
+    (indices : Array (Array Int)) (distances : Array (Array P)) (data : Array (Array P))
+    (i : Nat) (hi : i < indices.size) (hd : i < distances.size) (hw : indices[i].size = distances[i].size)
+    (h0 : 0 < indices[i].size) (fuel : Nat) (hf : 2 * indices[i].size + 2 ≤ fuel) :
+    ∃ (c' j' : Int) (ni' : Array Int) (nd' : Array P),
+      diversify.loop1 indices distances data () (i : Int) (indices[i].size : Int) fuel 0
+          #[indices[i][0]] #[distances[i][0]'(hw ▸ h0)] 1
+        = some (.next (c', ni', nd', j')) ∧
+      (ents ni' nd').head? = some (indices[i][0], distances[i][0]'(hw ▸ h0)) ∧
+      ((∀ c, DivParams.draw P (i : Int) c = false) →
+        ents ni' nd' = live (ents indices[i] distances[i])) := by
+  obtain ⟨c', j', ni', nd', h1, _, _, h4⟩ :=
+    kernel_diversify_row_refines_partial indices distances data i hi hd hw h0 fuel hf
+  have e := ents_drop_lt indices[i] distances[i] hw 0 h0
+  rw [List.drop_zero] at e
+  refine ⟨c', j', ni', nd', h1, ?_, ?_⟩
+  · rw [h4, e]; exact (first_retained_list _ _ _ _ _).1
+  · intro hz
+    have : drawOf P i = fun _ => false := by funext c; exact hz _
+    rw [h4, this]; exact prob_zero_retains_all_list _ _ _
+
+end KernelTie
 
 end Pynn.C15
